@@ -38,9 +38,8 @@ def replay(ctx, binary, sub, cases, stem):
 
 
 def replay_checked(ctx, sub, cases, stem):
-    """Thorough tier: the same generated cases against a build with overflow checks and debug assertions."""
-    if ctx.quick():
-        return []
+    """Both tiers: the same generated cases against a build with overflow checks and debug assertions
+    (release wraps where checked panics; a panic is an outcome the specifications do not allow)."""
     binary = ctx.build("checked", "mvh_cont")
     summ, mism, unb = replay(ctx, binary, sub, cases, stem + "_checked")
     ctx.traces += summ["cases"] - len(unb)
@@ -103,22 +102,38 @@ def round_trip_check(ctx, pid, binary, mc_module, gen_cfg, trace_module, fmt, ac
     ctx.sample({"replayed_case": dict(describe_case(mid), content_bytes=len(mid["content"]["data"]),
                                       strings=len(mid["content"]["text"]), image_bytes=len(mid["image"]))})
     # impl -> spec
+    # half of the recorded values under each build profile (different seeds), one validation run
     tpath = ctx.path(fmt + "_trace.ndjson")
-    ctx.harness(binary, [fmt + "-record", tpath] + [str(a) for a in record_args])
-    events = vlib.read_ndjson(tpath)
+    events = []
+    runs = int(record_args[0])
+    for profile, b, share, seed_shift in (("release", binary, runs - runs // 2, 0), ("checked", ctx.build("checked", "mvh_cont"), runs // 2, 7919)):
+        ppath = ctx.path("%s_trace_%s.ndjson" % (fmt, profile))
+        ctx.harness(b, [fmt + "-record", ppath, str(share)] + [str(a) for a in record_args[1:]],
+                    env={"VERIF_SEED": str(ctx.seed + seed_shift)})
+        for e in vlib.read_ndjson(ppath):
+            e["profile"] = profile
+            events.append(e)
+    vlib.write_ndjson(tpath, events)
     rep = validate(ctx, trace_module, tpath, len(events))
     for b in rep["bad"]:
         ev = events[b["i"] - 1]
-        sig = {"dir": "impl->spec", "failed": b["why"], "src": ev["src"], "status": ev["status"][:200]}
+        sig = {"dir": "impl->spec", "profile": ev["profile"], "failed": b["why"], "src": ev["src"], "status": ev["status"][:200]}
+        if "rule" in ev:
+            sig["rule"] = {k: (x if not isinstance(x, list) else len(x)) for k, x in ev["rule"].items()}
+            ctx.violation(sig, event_detail(ev, b["i"]))
+            continue
         sig.update(describe_event(ev))
         ctx.violation(sig, event_detail(ev, b["i"]))
     ctx.traces += len(events)
     ctx.evaluations += len(events)
-    ctx.nontrivial += sum(1 for e in events if nontrivial_event(e))
+    plain = [e for e in events if "rule" not in e]
+    ctx.nontrivial += sum(1 for e in plain if nontrivial_event(e)) + (len(events) - len(plain))
     ctx.extra["recorded_events"] = len(events)
-    ctx.extra["recorded_with_file_image"] = sum(1 for e in events if e["bytes"])
+    ctx.extra["recorded_rule_built_large_values"] = [dict({k: (x if not isinstance(x, list) else len(x)) for k, x in e["rule"].items()},
+                                                          image_bytes=e["len"], profile=e["profile"]) for e in events if "rule" in e]
+    ctx.extra["recorded_with_file_image"] = sum(1 for e in plain if e["bytes"])
     ctx.extra["recorded_sources"] = sorted(set(e["src"] for e in events))
-    ctx.sample({"recorded_event": dict(describe_event(events[min(3, len(events) - 1)]), src=events[min(3, len(events) - 1)]["src"])})
+    ctx.sample({"recorded_event": dict(describe_event(plain[min(3, len(plain) - 1)]), src=plain[min(3, len(plain) - 1)]["src"])})
     ctx.exhaustive = True
     finish_unbuildable(ctx, unb)
 
